@@ -183,6 +183,9 @@ def _cold_and_twins(repo, quick):
             res = procsim.canon({f"{i}:{k}": pair[k] for i, k in enumerate(order)}, repo)
             for key, v in res.items():
                 facts.append({"ev": "fact", "digest": v[0], "canon": can[key.split(":")[1]], "what": f"twin forms {name}: batch order {order}, result of {key}"})
+        # ... and converted by free-running threads at the same time (what one render remembers about a path must not answer the other's question)
+        for f, d in _free_running(pair, can, 8, 12 if quick else 60):
+            facts.append({"ev": "fact", "digest": d, "canon": can[f], "what": f"twin forms {name}: free-running threads, result of {f}"})
     return facts
 
 
@@ -197,8 +200,9 @@ def _free_running(forms, canon, nthreads, rounds):
     lock = threading.Lock()
 
     def work(i):
+        names = sorted(forms)
         for k in range(rounds):
-            f = ["f1", "f2", "f3"][(i + k) % 3]
+            f = names[(i + k) % len(names)]
             try:
                 r = convert(xlsform=forms[f], validate=False, pretty_print=False)
                 d = procsim.digest(r.xform, r.warnings, r.itemsets)
